@@ -11,8 +11,87 @@ PRELUDE = r"""
 global size_of usize == 8;   // assumption: 64-bit target
 
 // ---- shims (assumptions)
-#[verifier::external_body] struct KIteratorOutput { _p: u8 }
+#[verifier::external_body] struct OpaqueValue { _p: u8 }
+// KValue: the variants the adaptors name, plus an opaque catch-all
+enum KValue { Bool(bool), Other(OpaqueValue) }
+impl Clone for KValue { #[verifier::external_body] fn clone(&self) -> (r: Self) ensures r == *self { unimplemented!() } }
+#[verifier::external_body] struct Error { _p: u8 }
+impl Clone for Error { #[verifier::external_body] fn clone(&self) -> (r: Self) ensures r == *self { unimplemented!() } }
+// the real enum (types/iterator.rs KIteratorOutput) has exactly these three variants
+enum KIteratorOutput { Value(KValue), ValuePair(KValue, KValue), Error(Error) }
 type Output = KIteratorOutput;
+impl Clone for KIteratorOutput { #[verifier::external_body] fn clone(&self) -> (r: Self) ensures r == *self { unimplemented!() } }
+// `KValue::try_from(output)` (impl TryFrom<KIteratorOutput> for KValue): a value stays, a pair
+// becomes a tuple value, an error is handed back
+uninterp spec fn pair_as_value(a: KValue, b: KValue) -> KValue;
+spec fn as_value(o: Output) -> Option<KValue> {
+    match o { KIteratorOutput::Value(v) => Some(v), KIteratorOutput::ValuePair(a, b) => Some(pair_as_value(a, b)), KIteratorOutput::Error(_) => None }
+}
+#[verifier::external_body]
+fn kvalue_try_from(o: Output) -> (r: Result<KValue, Error>)
+    ensures (r is Ok) == (as_value(o) is Some), r matches Ok(v) ==> Some(v) == as_value(o), r matches Err(e) ==> o == KIteratorOutput::Error(e)
+{ unimplemented!() }
+// `value.into()` (impl From<KValue> for KIteratorOutput)
+#[verifier::external_body]
+fn value_into_output(v: KValue) -> (r: Output) ensures r == KIteratorOutput::Value(v) { unimplemented!() }
+
+// ---- calling back into Koto (take_while / keep predicates): the answer of the predicate for a
+// given argument is an uninterpreted function of that argument (a predicate with side effects that
+// answers differently for the same element is outside the model)
+#[verifier::external_body] struct InstructionFrame { _p: u8 }
+impl Clone for InstructionFrame { #[verifier::external_body] fn clone(&self) -> (r: Self) ensures r == *self { unimplemented!() } }
+#[verifier::external_body] struct PairArgs { _p: u8 }
+uninterp spec fn pair_args_spec(a: KValue, b: KValue) -> PairArgs;
+// `CallArgs::AsTuple(&[a.clone(), b.clone()])` (rule R5)
+#[verifier::external_body]
+fn pair_args(a: KValue, b: KValue) -> (r: PairArgs) ensures r == pair_args_spec(a, b) { unimplemented!() }
+uninterp spec fn answer<A>(f: KValue, args: A) -> Result<KValue, Error>;
+#[verifier::external_body] struct KotoVm { _p: u8 }
+impl KotoVm {
+    #[verifier::external_body]
+    fn call_function<A>(&mut self, f: KValue, args: A) -> (r: Result<KValue, Error>) ensures r == answer(f, args) { unimplemented!() }
+}
+impl Error {
+    #[verifier::external_body]
+    fn extend_trace(&mut self, frame: InstructionFrame) { unimplemented!() }
+}
+// what the predicate says about an element: 0 = the element is an error of the source,
+// 1 = holds, 2 = does not hold, 3 = the predicate failed or did not answer with a Bool
+spec fn bool_verdict(a: Result<KValue, Error>) -> int {
+    match a { Ok(KValue::Bool(b)) => if b { 1 } else { 2 }, _ => 3 }
+}
+spec fn verdict(p: KValue, o: Output) -> int {
+    match o {
+        KIteratorOutput::Error(_) => 0,
+        KIteratorOutput::Value(v) => bool_verdict(answer(p, v)),
+        KIteratorOutput::ValuePair(a, b) => bool_verdict(answer(p, pair_args_spec(a, b))),
+    }
+}
+// core_lib/iterator.rs collect_pair: a pair becomes ONE tuple value, anything else is unchanged (assumed)
+spec fn collected(o: Output) -> Output {
+    match o { KIteratorOutput::ValuePair(a, b) => KIteratorOutput::Value(pair_as_value(a, b)), other => other }
+}
+#[verifier::external_body]
+fn collect_pair(o: Output) -> (r: Output) ensures r == collected(o) { unimplemented!() }
+
+// the position of the first element the predicate does not reject (or the length)
+spec fn first_kept(p: KValue, s: Seq<Output>) -> int decreases s.len() {
+    if s.len() == 0 { 0 } else if verdict(p, s[0]) != 2 { 0 } else { 1 + first_kept(p, s.drop_first()) }
+}
+proof fn lemma_first_kept_bounds(p: KValue, s: Seq<Output>)
+    ensures 0 <= first_kept(p, s) <= s.len(),
+            first_kept(p, s) < s.len() ==> verdict(p, s[first_kept(p, s)]) != 2,
+    decreases s.len()
+{
+    if s.len() > 0 && verdict(p, s[0]) == 2 {
+        lemma_first_kept_bounds(p, s.drop_first());
+        let k = first_kept(p, s.drop_first());
+        if k < s.drop_first().len() { assert(s.drop_first()[k] == s[k + 1]); }
+    }
+}
+// `Error::with_error_frame(ErrorKind::UnexpectedType { .. }, frame)` (rule R5)
+#[verifier::external_body]
+fn unexpected_bool_error(unexpected: KValue, frame: InstructionFrame) -> Error { unimplemented!() }
 
 // The adapted iterator: an opaque sequence source. `rem()` is the (finite) sequence of outputs it
 // still has to yield; next pops the head, next_back pops the last, nth(n) drops n and pops.
@@ -161,6 +240,140 @@ UNIT = Unit(
         final(self).step == old(self).step,
 """),
 
+        # ------------------------------------------------------------------ pair_first / pair_second
+        Type(F, "struct PairFirst"),
+        Fn(F, "impl Iterator for PairFirst :: fn next", props=P, impl_as="impl PairFirst",
+           subst=[("Option<Self::Item>", "Option<Output>", 1)],
+           spec=r"""
+    ensures
+        // keys of a map iteration: the first half of a pair, anything else unchanged; one pull per element
+        old(self).iter.rem().len() > 0 ==> r == Some(match old(self).iter.rem()[0] { KIteratorOutput::ValuePair(first, _) => KIteratorOutput::Value(first), other => other }),   // @first_of_pair
+        old(self).iter.rem().len() == 0 ==> r is None,
+        final(self).iter.rem() =~= (if old(self).iter.rem().len() > 0 { old(self).iter.rem().drop_first() } else { old(self).iter.rem() }),   // @pulls_exactly_one
+"""),
+        Type(F, "struct PairSecond"),
+        Fn(F, "impl Iterator for PairSecond :: fn next", props=P, impl_as="impl PairSecond",
+           subst=[("Option<Self::Item>", "Option<Output>", 1)],
+           spec=r"""
+    ensures
+        old(self).iter.rem().len() > 0 ==> r == Some(match old(self).iter.rem()[0] { KIteratorOutput::ValuePair(_, second) => KIteratorOutput::Value(second), other => other }),   // @second_of_pair
+        old(self).iter.rem().len() == 0 ==> r is None,
+        final(self).iter.rem() =~= (if old(self).iter.rem().len() > 0 { old(self).iter.rem().drop_first() } else { old(self).iter.rem() }),   // @pulls_exactly_one
+"""),
+        # ------------------------------------------------------------------ cycle
+        Type(F, "struct Cycle"),
+        Fn(F, "impl Iterator for Cycle :: fn next", props=P, impl_as="impl Cycle",
+           subst=[("Option<Self::Item>", "Option<Output>", 1),
+                  ("KValue::try_from(output)", "kvalue_try_from(output)", 1),
+                  ("Some(value.into())", "Some(value_into_output(value))", 1),
+                  ("Some(result.into())", "Some(value_into_output(result))", 1)],
+           spec=r"""
+    requires old(self).cycle_index <= old(self).cache@.len(), old(self).cache@.len() < usize::MAX,
+    ensures
+        final(self).cycle_index <= final(self).cache@.len(),
+        // first pass: the source's elements are passed through and remembered, in order
+        (old(self).iter.rem().len() > 0 && as_value(old(self).iter.rem()[0]) is Some) ==> ({
+            let v = as_value(old(self).iter.rem()[0])->0;
+            &&& r == Some(KIteratorOutput::Value(v)) && final(self).cache@ == old(self).cache@.push(v)
+            &&& final(self).iter.rem() == old(self).iter.rem().drop_first() && final(self).cycle_index == old(self).cycle_index }),   // @first_pass_remembers
+        // an empty source cycles to nothing
+        old(self).iter.rem().len() == 0 && old(self).cache@.len() == 0 ==> r is None,                    // @empty_cycle_is_empty
+        // afterwards the remembered elements repeat in their original order, wrapping around
+        old(self).iter.rem().len() == 0 && old(self).cache@.len() > 0 ==> ({
+            let i = if old(self).cycle_index == old(self).cache@.len() { 0 } else { old(self).cycle_index as int };
+            &&& r == Some(KIteratorOutput::Value(old(self).cache@[i]))
+            &&& final(self).cycle_index == i + 1
+            &&& final(self).cache@ == old(self).cache@ }),                                             // @repeats_in_order
+"""),
+        # ------------------------------------------------------------------ take_while (iterator.take with a predicate)
+        Type(F, "struct TakeWhile"),
+        Fn(F, "impl Iterator for TakeWhile :: fn next", props=P, impl_as="impl TakeWhile",
+           subst=[("Option<Self::Item>", "Option<Output>", 1),
+                  ("CallArgs::AsTuple(&[a.clone(), b.clone()])", "pair_args(a.clone(), b.clone())", 1),
+                  ("""                let error = Error::with_error_frame(
+                    ErrorKind::UnexpectedType {
+                        expected: "Bool from the predicate".into(),
+                        unexpected,
+                    },
+                    self.error_frame.clone(),
+                );""", "                let error = unexpected_bool_error(unexpected, self.error_frame.clone());", 1)],
+           spec=r"""
+    ensures
+        // once the predicate has said no, the adaptor is finished for good and never touches the source again
+        old(self).finished ==> r is None && final(self).finished && final(self).iter.rem() == old(self).iter.rem(),   // @finished_is_final
+        !old(self).finished && old(self).iter.rem().len() == 0 ==> r is None,                             // @none_when_source_is_empty
+        // otherwise exactly one element is pulled ...
+        !old(self).finished && old(self).iter.rem().len() > 0 ==> final(self).iter.rem() == old(self).iter.rem().drop_first(),   // @pulls_exactly_one
+        // ... passed on while the predicate holds ...
+        !old(self).finished && old(self).iter.rem().len() > 0 && verdict(old(self).predicate, old(self).iter.rem()[0]) == 1 ==> r == Some(old(self).iter.rem()[0]) && !final(self).finished,   // @passes_while_predicate_holds
+        // ... and the first `false` ends the sequence for good
+        !old(self).finished && old(self).iter.rem().len() > 0 && verdict(old(self).predicate, old(self).iter.rem()[0]) == 2 ==> r is None && final(self).finished,   // @first_false_latches
+        // errors of the source are passed on
+        !old(self).finished && old(self).iter.rem().len() > 0 && verdict(old(self).predicate, old(self).iter.rem()[0]) == 0 ==> r == Some(old(self).iter.rem()[0]),   // @source_errors_pass
+        // a predicate that fails or answers with a non-Bool yields an error element
+        !old(self).finished && old(self).iter.rem().len() > 0 && verdict(old(self).predicate, old(self).iter.rem()[0]) == 3 ==> (r matches Some(KIteratorOutput::Error(_))),   // @bad_predicate_is_an_error_element
+"""),
+        # ------------------------------------------------------------------ keep (filter)
+        Type(F, "struct Keep"),
+        Fn(F, "impl Iterator for Keep :: fn next", props=P, impl_as="impl Keep",
+           subst=[("Option<Self::Item>", "Option<Output>", 1),
+                  # `for x in &mut it` is `while let Some(x) = it.next()` (std's impl Iterator for &mut I); rule R5
+                  ("for output in &mut self.iter {", "while let Some(output) = self.iter.next() {", 1),
+                  ("CallArgs::AsTuple(&[a.clone(), b.clone()])", "pair_args(a.clone(), b.clone())", 1),
+                  ("""                    let error = Error::with_error_frame(
+                        ErrorKind::UnexpectedType {
+                            expected: "Bool from the predicate".into(),
+                            unexpected,
+                        },
+                        self.error_frame.clone(),
+                    );""", "                    let error = unexpected_bool_error(unexpected, self.error_frame.clone());", 1)],
+           loops={1: r"""
+            invariant
+                self.predicate == old(self).predicate,
+                ({ let j = old(self).iter.rem().len() - self.iter.rem().len();
+                   &&& 0 <= j <= old(self).iter.rem().len()
+                   &&& self.iter.rem() == old(self).iter.rem().skip(j)
+                   &&& first_kept(old(self).predicate, old(self).iter.rem()) == j + first_kept(old(self).predicate, self.iter.rem()) }),
+            ensures
+                self.iter.rem().len() == 0,
+                first_kept(old(self).predicate, old(self).iter.rem()) == old(self).iter.rem().len(),
+            decreases self.iter.rem().len(),
+"""},
+           loop_open={1: r"""proof {
+    let j = old(self).iter.rem().len() - self.iter.rem().len() - 1;
+    assert(old(self).iter.rem().skip(j)[0] == old(self).iter.rem()[j]);
+    assert(old(self).iter.rem().skip(j).drop_first() =~= old(self).iter.rem().skip(j + 1));
+    lemma_first_kept_bounds(old(self).predicate, old(self).iter.rem());
+}"""},
+           spec=r"""
+    ensures
+        // the elements the predicate rejects are skipped, the first other one is yielded, and the
+        // source is advanced exactly past it (no look-ahead)
+        ({ let s = old(self).iter.rem(); let k = first_kept(old(self).predicate, s);
+           &&& (k < s.len() && verdict(old(self).predicate, s[k]) == 1 ==> r == Some(s[k]))             // @yields_first_kept
+           &&& (k < s.len() && verdict(old(self).predicate, s[k]) == 0 ==> r == Some(s[k]))             // @source_errors_pass
+           &&& (k < s.len() && verdict(old(self).predicate, s[k]) == 3 ==> (r matches Some(KIteratorOutput::Error(_))))   // @bad_predicate_is_an_error_element
+           &&& (k < s.len() ==> final(self).iter.rem() =~= s.skip(k + 1))                               // @advances_exactly_past_it
+           &&& (k >= s.len() ==> r is None && final(self).iter.rem().len() == 0) }),                    // @none_when_nothing_kept
+"""),
+        # ------------------------------------------------------------------ zip
+        Type(F, "struct Zip"),
+        Fn(F, "impl Iterator for Zip :: fn next", props=P, impl_as="impl Zip",
+           subst=[("Option<Self::Item>", "Option<Output>", 1)],
+           spec=r"""
+    ensures
+        // pairs up the heads of both sources; ends with the shorter one
+        ({ let a = old(self).iter_a.rem(); let b = old(self).iter_b.rem();
+           &&& (a.len() > 0 && b.len() > 0 && collected(a[0]) is Value && collected(b[0]) is Value
+                    ==> r == Some(KIteratorOutput::ValuePair(collected(a[0])->Value_0, collected(b[0])->Value_0)))   // @pairs_the_heads
+           &&& (a.len() == 0 ==> r is None && final(self).iter_b.rem() == b)                            // @b_untouched_when_a_is_empty
+           &&& (a.len() > 0 && collected(a[0]) is Value && b.len() == 0 ==> r is None)                  // @ends_with_the_shorter
+           &&& (a.len() > 0 && a[0] is Error ==> r == Some(a[0]) && final(self).iter_b.rem() == b)      // @errors_of_a_pass
+           &&& (a.len() > 0 && collected(a[0]) is Value && b.len() > 0 && b[0] is Error ==> r == Some(b[0]))   // @errors_of_b_pass
+           // one pull from each source per pair, a first
+           &&& (a.len() > 0 ==> final(self).iter_a.rem() == a.drop_first())                             // @pulls_one_from_a
+           &&& (a.len() > 0 && collected(a[0]) is Value && b.len() > 0 ==> final(self).iter_b.rem() == b.drop_first()) }),   // @pulls_one_from_b
+"""),
         # the laziness clause of C13 for Step, as a separate obligation on a second extraction of the
         # same function: it FAILS on the unchanged tree (finding F14, known_findings.json)
         Fn(F, "impl Iterator for Step :: fn next", props=("C13",), impl_as="impl Step", rename="next__laziness",
